@@ -288,6 +288,26 @@ func runC20(w *World, tier string, advMode string) (bool, interface{}) {
 		c2.L.PausedOp[newIdx[vi]] = true
 		other := newIdx[(vi+1)%n]
 		w.Advance(2e9)
+		if w.Tape.Bool(1, 2, "sameRoundMessageWaiting") {
+			// a peer that has already finished its own reinitialisation proposes a batch for the
+			// SAME round: the victim's tick applies a message of the very round the request updates
+			c2.L.RunUntil(func() bool {
+				d := w.Nodes[other].Dump(round)
+				return d != nil && string(d.State) == StIdle && len(w.Nodes[other].PendingOps()) == 0
+			}, 200*n)
+			if rp := c2.ProposeFiles(other, round, map[string][]byte{"c14 same round": []byte("proposed while a peer still finishes its reinitialisation")}); !rp.OK() {
+				return false, "peer could not propose: " + rp.ErrMsg
+			}
+			w.Stats.Fault("message-of-the-reinitialised-round-waiting")
+			waiting := w.Board.Len() - int(v.Offset())
+			if waiting < 1 {
+				return false, "nothing waiting for the victim"
+			}
+			if waiting > 3 {
+				waiting = 3
+			}
+			return raceAndJudge(w, v, &raceSpec{kind: "submit:reinit_dkg", method: "POST", path: "/handleProcessedOperationJSON", body: prepared, msgs: waiting}, tier, n, t)
+		}
 		payloadB := w.StartDKGPayload(2+w.Tape.Choose(n-1, "tB"), newIdx)
 		if rp := w.CallAPI(w.Nodes[other], "startDKG", "POST", "/startDKG", payloadB); !rp.OK() {
 			return false, "second round not started: " + rp.ErrMsg
